@@ -22,12 +22,26 @@ def main():
     quick = core.tier() == "quick"
     phi0 = pred("ge", var("x"), const(0))
     cfgs = [mc.std_cfg(["x"], period=4, tol=1), mc.std_cfg(["x"], period=4, tol=0), mc.std_cfg(["x"], period=4, tol=4)]
-    for mode in ("online", "offline"):
-        r = mc.rtamt_mc("C13_" + mode, [phi0, un("once", phi0)], cfgs, vals=(1,), gaps=(0, 2, 3, 4, 5, 6, 8, 9), maxlen=4 if quick else 6,
-                        mode=mode, invariants=["InvC13", "InvC02", "InvC01", "InvC01cfg"], properties=["ActC10", "ActReconf"])
-        rep.add_mc("%s: all gap-class sequences x tolerances {0, 1/4, 1}, Reset anywhere" % mode, r)
+    INV, PROPS = ["InvC13", "InvC02", "InvC01", "InvC01cfg"], ["ActC10", "ActReconf"]
+    r = mc.rtamt_mc("C13_offline", [phi0, un("once", phi0)], cfgs, vals=(1,), gaps=(0, 2, 3, 4, 5, 6, 8, 9), maxlen=4 if quick else 6,
+                    mode="offline", invariants=INV, properties=PROPS)
+    rep.add_mc("offline: all gap-class sequences x tolerances {0, 1/4, 1}, Reconfigure between evaluations", r)
+    if r["violated"]:
+        rep.mc_violation("C13_offline", r)
+    # online: each tolerance on its own with all gap classes (a single configuration: Retolerance is never enabled) ...
+    for k_, cfg_ in enumerate(cfgs):
+        r = mc.rtamt_mc("C13_online_%d" % k_, [phi0, un("once", phi0)], [cfg_], vals=(1,), gaps=(0, 2, 3, 4, 5, 6, 8, 9), maxlen=4 if quick else 6,
+                        mode="online", invariants=INV, properties=PROPS)
+        rep.add_mc("online, tolerance %d/4: all gap-class sequences, Reset anywhere" % cfg_["tol"], r)
         if r["violated"]:
-            rep.mc_violation("C13_" + mode, r)
+            rep.mc_violation("C13_online_%d" % k_, r)
+    # ... and the three together: the action Retolerance moves the monitor between them between updates; every gap is judged by the
+    # tolerance in force when its second sample arrives (the history of tolerances is state: smaller bounds)
+    r = mc.rtamt_mc("C13_online_retol", [phi0], cfgs, vals=(1,), gaps=(0, 2, 4, 5, 8, 9), maxlen=3 if quick else 4,
+                    mode="online", invariants=INV, properties=PROPS)
+    rep.add_mc("online with Retolerance between updates: gap classes x tolerances {0, 1/4, 1} x Reset anywhere", r)
+    if r["violated"]:
+        rep.mc_violation("C13_online_retol", r)
     rr = mc.rtamt_mc("C13_devon", [phi0], cfgs[:1], vals=(1,), gaps=(2, 4), maxlen=3, dev=["resetKeepsViol"], invariants=["InvC13"],
                      expect_violation=True)
     rep.extra["deviation_on_counterexample"] = {"resetKeepsViol": rr["violated"]}
@@ -37,6 +51,19 @@ def main():
     rr = mc.rtamt_mc("C13_devstale", [phi0], cfgs, vals=(1,), gaps=(2, 4, 8), maxlen=3, mode="offline", dev=["staleConfig"],
                      invariants=["InvC13"], properties=["ActReconf"], expect_violation=True)
     rep.extra["deviation_on_counterexample"]["staleConfig"] = rr["violated"]
+    # (B): TLC-simulated behaviours of the online machine with Retolerance and Reset steps, replayed on the real library
+    import behaviours
+    bres, behs = behaviours.simulate("C13_sim", [phi0, un("once", phi0)], ["x"], vals=(1, -2), gaps=(0, 2, 4, 5, 8, 9), num=(60 if quick else 600),
+                                     depth=(7 if quick else 9), seed=core.seed(), mode="online", configs=cfgs)
+    rep.add_mc("TLC simulation of Rtamt.tla, online half with Retolerance: behaviours generated for replay", bres, exhaustive=False)
+    if bres["violated"]:
+        rep.mc_violation("C13_sim", bres)
+    bcases = behaviours.to_cases(behs, ["x"])
+    btr = runner.run_cases(bcases)
+    bvs, bgen, bdist = core.validate("C13_sim_replay", btr)
+    rep.add_traces(btr, bvs, bgen, bdist, nontrivial_key=lambda c: c["objs"][0]["text"] + str([(e["a"], e.get("t"), e.get("tol")) for e in c["events"]]))
+    rep.extra["tlc_behaviours_replayed"] = len(bcases)
+    rep.extra["tlc_behaviours_with_retolerance"] = sum(1 for c in bcases if any(e["a"] == "config" for e in c["events"]))
 
     # Apalache: the same counter machine, symbolic in period, tolerance and time-stamps (spec/apalache/CounterAp.tla)
     import subprocess, shutil, time as _t
